@@ -15,7 +15,9 @@ EXPLANATION = (
     "actfun to deactfun; activation is filtered by support containment; (R04.4) every HSpace method that writes state reaches "
     "_clear_cache() after its last write; (R04.5) set-typed state reaches numbering only through sorted(); (R04.6) disparity-"
     "preserving marking only runs for finite disparity, stops below level 0, and recurses on exactly the level whose marks it "
-    "has just extended (level expressions compared as affine forms).")
+    "has just extended (level expressions compared as affine forms), is started on every level, and every non-empty neighbourhood "
+    "is intersected with the active cells of its level; (R04.7) refine() works on its own copy of the caller's marks on every "
+    "path (the getters hand out the internal sets); (R04.8 = R05.6) structure of the truncation.")
 DOES_NOT_DECIDE = "tiling, linear independence, partition of unity, mutual inverse of HB<->THB (facts about runtime sets)"
 TECHNIQUE = "custom AST rules: container-kind taint, alias/effect analysis for state ownership, statement pairing, must-reach (cache invalidation), order provenance"
 
